@@ -705,4 +705,217 @@ example : handles (run (init 1 true) [Op.create 0 [1, 2, 3, 4, 5] (some 7)]) 0 =
     ∧ (run (init 1 true) [Op.create 0 [1, 2, 3, 4, 5] (some 7)]).trace = [Ev.alloc 6]
     ∧ (step (run (init 1 true) [Op.create 0 [1, 2, 3, 4, 5] (some 7)]) (Op.conv 0)).2 = Res.num 7 := by decide
 
+/-! ## faults: allocation failure (`std::bad_alloc`) and exceptions out of callables run under a freshly installed queue
+
+All conservation / heap theorems above (`c06_multiset_preserved`, `c06_never_twice`, `c06_exactly_once_at_end`,
+`c06_heap_balanced`, `c06_block_ownership`, `c06_no_leak_at_end`, `c06_value`) quantify over *every* operation list, and `Op`
+includes the fault operations `Op.fault f`: histories in which allocations fail at any growth position and callables throw,
+followed by any further operations on the same objects, are covered by them.  The theorems below say what each fault operation
+does. -/
+
+/-- **`sp << h` under allocation failure: strong guarantee.**  `add` calls `new[]` exactly when the inline storage is full
+(3 handles: the inline→heap switch) or the heap block is at capacity (every doubling).  When that allocation throws
+`std::bad_alloc`, *nothing at all* has changed — not the handles, not the representation (count, flag, capacity, block), not
+the heap; the handle stays with the caller (it was not handed in).  Otherwise the operation is the plain `sp << h`. -/
+theorem c06_add_alloc_failure {n : Nat} {a : Bool} {s : State} (h : Reachable n a s) {i : Nat} {o : Obj}
+    (hi : s.obj i = some o) (x : Ptr) :
+    (needsAlloc o = true → step s (Op.fault (FOp.addF i x)) = (s, Res.threw))
+    ∧ (needsAlloc o = false → step s (Op.fault (FOp.addF i x)) = ((step s (Op.addH i x)).1, Res.unit))
+    ∧ (needsAlloc o = true ↔ (o.cf % 2 = 0 ∧ o.cf / 2 = inlineCount) ∨ (o.cf % 2 = 1 ∧ o.cf / 2 = o.cap)) := by
+  refine ⟨fun hn => by simp only [step, stepF, hi, hn, if_true], fun hn => by simp [step, stepF, hi, hn], ?_⟩
+  have W := (c06_count_within_storage h hi).1
+  unfold needsAlloc
+  by_cases hf : o.cf % 2 = 1
+  · rw [if_pos hf]
+    constructor
+    · intro hh; right; exact ⟨hf, by simpa using hh⟩
+    · rintro (⟨h0, -⟩ | ⟨-, hh⟩)
+      · omega
+      · simpa using hh
+  · rw [if_neg hf]
+    have hf0 : o.cf % 2 = 0 := by omega
+    have hle := (W hf0).1
+    constructor
+    · intro hh; left
+      have : ¬ o.cf / 2 < inlineCount := by simpa using hh
+      exact ⟨hf0, by omega⟩
+    · rintro (⟨-, hh⟩ | ⟨h1, -⟩)
+      · simp [hh]
+      · omega
+
+/-- **Merging under allocation failure** (`a << std::move(b)`, `a = std::move(b)`, two distinct objects, the `k`-th `new[]` of
+the operation fails — the inline→heap switch of the target or any of its doublings, whatever the two sizes and storage
+kinds).  Either no allocation failed and the operation *is* the plain merge, or `std::bad_alloc` came out and **every** suspend
+point — target, source, bystanders — holds exactly the handles it held before, in the same order: nothing lost (the source
+keeps everything), nothing duplicated (the handles already copied are dropped from the target again: `/repo` fix 07a2414; the
+unrepaired code left them in both: `c06_asis_merge_alloc_failure_duplicates`); nothing was resumed, queued, handed in or
+popped.  The target may have moved to a bigger block on the way; heap balance and block ownership hold (reachable state). -/
+theorem c06_merge_alloc_failure {n : Nat} {a : Bool} {s : State} (h : Reachable n a s) {i j : Nat} {oi oj : Obj}
+    (hi : s.obj i = some oi) (hj : s.obj j = some oj) (hij : i ≠ j) (k : Nat) :
+    step s (Op.fault (FOp.mergeF i j k)) = step s (Op.merge i j)
+    ∨ ((step s (Op.fault (FOp.mergeF i j k))).2 = Res.threw
+        ∧ (∀ x, handles (step s (Op.fault (FOp.mergeF i j k))).1 x = handles s x)
+        ∧ (step s (Op.fault (FOp.mergeF i j k))).1.queue = s.queue
+        ∧ resumed (step s (Op.fault (FOp.mergeF i j k))).1 = resumed s
+        ∧ (step s (Op.fault (FOp.mergeF i j k))).1.given = s.given
+        ∧ (step s (Op.fault (FOp.mergeF i j k))).1.popped = s.popped
+        ∧ (step s (Op.fault (FOp.mergeF i j k))).1.active = s.active) := by
+  have e1 : step s (Op.fault (FOp.mergeF i j k)) = stepMergeF s i j oj k := by
+    simp only [step, stepF, hi, hj, if_neg hij]
+  have e2 : step s (Op.merge i j) = (stepMerge s i j oj, Res.unit) := by
+    simp only [step, hi, hj, if_neg hij]
+  rw [e1, e2]
+  rcases mergeF_spec (reachable_inv h) hi hj hij k with e | ⟨t, -, hh, Q, -, -⟩
+  · left; exact e
+  · right; exact ⟨t, hh, Q.queue, Q.resumed, Q.given, Q.popped, Q.active⟩
+
+/-- as-is fact (before `/repo` commit 07a2414 "fix: suspend_point merge left already copied handles in both objects when
+growing failed with bad_alloc"): a target with two handles, a source with three (10 11 12).  Handle 10 is copied into the third
+inline cell, then the inline→heap switch needed for handle 11 fails.  The unrepaired `operator<<` had no handler: the
+exception left handle 10 in the target *and* in the source; destroying both resumes coroutine 10 twice.  The repaired code
+drops it from the target again.  Replayed on the headers in corpus/c06_merge_bad_alloc.txt. -/
+theorem c06_asis_merge_alloc_failure_duplicates :
+    let s0 := run (init 2 false) [Op.ctorH 0 1, Op.addH 0 2, Op.ctorH 1 10, Op.addH 1 11, Op.addH 1 12]
+    let s1 := (stepMergeFAsIs s0 0 1 { cf := 6, inl := [10, 11, 12] } 0).1
+    (s0.obj 1 = some { cf := 6, inl := [10, 11, 12] })
+    ∧ (stepMergeFAsIs s0 0 1 { cf := 6, inl := [10, 11, 12] } 0).2 = Res.threw
+    ∧ handles s1 0 = [1, 2, 10] ∧ handles s1 1 = [10, 11, 12]
+    ∧ resumed (run s1 (endOps 2)) = [1, 2, 10, 10, 11, 12]
+    ∧ resumed (run (step s0 (Op.fault (FOp.mergeF 0 1 0))).1 (endOps 2)) = [1, 2, 10, 11, 12] := by decide
+
+/-- **An exception out of a callable run under a freshly installed queue** (`coro_queue::install_queue_and_call(fn)`, from plain
+code or from a coroutine; `fn` makes the coroutines `hs` ready, optionally clears suspend point `j`, then returns or throws).
+The state after the call does not depend on whether `fn` returned or threw: the thread is in the mode it was in before
+(`is_active()` unchanged — in particular plain code is *not* left in coroutine mode), the ready queue is empty, and everything
+that was queued before, everything `fn` made ready and everything the cleared suspend point held has been resumed, each exactly
+once, in that order; no other suspend point changed. -/
+theorem c06_call_exception {n : Nat} {a : Bool} {s : State} (h : Reachable n a s) (hs : List Ptr) (j : Option Nat)
+    (hj : callRefused s j = false) :
+    (step s (Op.fault (FOp.call hs j true))).1 = (step s (Op.fault (FOp.call hs j false))).1
+    ∧ (step s (Op.fault (FOp.call hs j true))).2 = Res.threw
+    ∧ (step s (Op.fault (FOp.call hs j true))).1.active = s.active
+    ∧ (step s (Op.fault (FOp.call hs j true))).1.queue = []
+    ∧ (step s (Op.fault (FOp.call hs j true))).1.given = s.given ++ hs
+    ∧ resumed (step s (Op.fault (FOp.call hs j true))).1
+        = resumed s ++ s.queue ++ hs ++ (match j with | some jj => handles s jj | none => [])
+    ∧ (∀ k, some k ≠ j → handles (step s (Op.fault (FOp.call hs j true))).1 k = handles s k)
+    ∧ (∀ jj, j = some jj → handles (step s (Op.fault (FOp.call hs j true))).1 jj = []) := by
+  have e : ∀ b, step s (Op.fault (FOp.call hs j b)) = (stepCall s hs j, if b then Res.threw else Res.unit) := by
+    intro b; simp only [step, stepF, hj]; rfl
+  rw [e true, e false]
+  obtain ⟨-, Cact, Cq, -, Cg, -, Cnone, Csome⟩ := call_spec (reachable_inv h) hs j
+  refine ⟨rfl, rfl, Cact, Cq, Cg, ?_, ?_, ?_⟩
+  · cases j with
+    | none => rw [(Cnone (fun jj e => by cases e)).1]; simp
+    | some jj =>
+        cases ho : s.obj jj with
+        | none => simp [callRefused, ho] at hj
+        | some o => exact (Csome jj o rfl ho).1
+  · intro k hk
+    cases j with
+    | none => exact (Cnone (fun jj e => by cases e)).2.2 k
+    | some jj =>
+        cases ho : s.obj jj with
+        | none => simp [callRefused, ho] at hj
+        | some o => exact (Csome jj o rfl ho).2.2.2 k (fun e => hk (by rw [e]))
+  · intro jj e; subst e
+    cases ho : s.obj jj with
+    | none => simp [callRefused, ho] at hj
+    | some o => exact (Csome jj o rfl ho).2.2.1
+
+/-- **`coro_queue::create_suspend_point(fn)` with `fn` throwing** after it has made the coroutines `hs` ready: no suspend point
+is created and none changes, the thread stays in its mode; from plain code every coroutine of `hs` has been resumed exactly
+once when the exception reaches the caller (the temporarily installed queue is flushed and uninstalled), from a coroutine they
+wait in the ready queue behind what was queued before — none is dropped. -/
+theorem c06_create_exception {n : Nat} {a : Bool} {s : State} (h : Reachable n a s) (hs : List Ptr) :
+    (step s (Op.fault (FOp.createX hs))).2 = Res.threw
+    ∧ (∀ k, (step s (Op.fault (FOp.createX hs))).1.obj k = s.obj k)
+    ∧ (∀ k, handles (step s (Op.fault (FOp.createX hs))).1 k = handles s k)
+    ∧ (step s (Op.fault (FOp.createX hs))).1.active = s.active
+    ∧ (step s (Op.fault (FOp.createX hs))).1.given = s.given ++ hs
+    ∧ (s.active = true → (step s (Op.fault (FOp.createX hs))).1.queue = s.queue ++ hs
+        ∧ resumed (step s (Op.fault (FOp.createX hs))).1 = resumed s)
+    ∧ (s.active = false → (step s (Op.fault (FOp.createX hs))).1.queue = []
+        ∧ resumed (step s (Op.fault (FOp.createX hs))).1 = resumed s ++ hs) := by
+  have I := reachable_inv h
+  by_cases ha : s.active = true
+  · have e : step s (Op.fault (FOp.createX hs)) = (ready s hs, Res.threw) := by simp only [step, stepF, ha, if_true]
+    rw [e]
+    exact ⟨rfl, fun _ => rfl, fun k => handles_of_eq rfl rfl k, rfl, rfl, fun _ => ⟨rfl, rfl⟩,
+      fun hf => by rw [ha] at hf; cases hf⟩
+  · have ha' : s.active = false := by simpa using ha
+    have e : step s (Op.fault (FOp.createX hs)) = (stepCall s hs none, Res.threw) := by
+      simp only [step, stepF, ha', Bool.false_eq_true, if_false]
+    rw [e]
+    obtain ⟨-, Cact, Cq, -, Cg, -, Cnone, -⟩ := call_spec I hs none
+    obtain ⟨Cr, Co, Ch⟩ := Cnone (fun jj e => by cases e)
+    refine ⟨rfl, Co, Ch, Cact, Cg, (fun hf => by rw [ha'] at hf; cases hf), fun _ => ⟨Cq, ?_⟩⟩
+    rw [Cr, I.idle ha']; simp
+
+/-- **No fault operation changes the thread's mode**: after an allocation failure or an exception out of a callable — caught by
+the caller — `coro_queue::is_active()` is what it was, so the suspend points used afterwards resume (normal mode) or queue
+(coroutine mode) their coroutines as before (`c06_consume`); `FOp.isActive` reads it. -/
+theorem c06_fault_mode_unchanged {n : Nat} {a : Bool} {s : State} (h : Reachable n a s) (f : FOp) :
+    (step s (Op.fault f)).1.active = s.active
+    ∧ step s (Op.fault FOp.isActive) = (s, Res.flag s.active) := by
+  have I := reachable_inv h
+  refine ⟨?_, rfl⟩
+  cases f with
+  | addF i x =>
+      simp only [step, stepF]
+      cases hi : s.obj i with
+      | none => rfl
+      | some o =>
+          simp only []
+          split
+          · rfl
+          · have H0 : HeapOk { s with given := s.given ++ [x] } := heapOk_of_eq I.heap rfl rfl rfl [] (by simp)
+            have O0 : Own { s with given := s.given ++ [x] } := own_of_eq I.own rfl rfl
+            exact (add_spec H0 O0 (show ({ s with given := s.given ++ [x] } : State).obj i = some o from hi) x).active
+  | mergeF i j k =>
+      cases hi : s.obj i with
+      | none => simp only [step, stepF, hi]
+      | some oi =>
+          cases hj : s.obj j with
+          | none => simp only [step, stepF, hi, hj]
+          | some oj =>
+              by_cases hij : i = j
+              · subst hij; simp only [step, stepF, hi, if_true]
+              · rcases c06_merge_alloc_failure h hi hj hij k with e | ⟨-, -, -, -, -, -, ha⟩
+                · rw [e]
+                  have e2 : step s (Op.merge i j) = (stepMerge s i j oj, Res.unit) := by
+                    simp only [step, hi, hj, if_neg hij]
+                  rw [e2]; exact (merge_spec I hi hj hij).2.2.2.2.1.active
+                · exact ha
+  | call hs j throws =>
+      simp only [step, stepF]
+      split
+      · rfl
+      · exact (call_spec I hs j).2.1
+  | createX hs => exact (c06_create_exception h hs).2.2.2.1
+  | isActive => rfl
+
+/-! non-vacuity of the fault theorems -/
+
+/-- six handles in a block of six: the seventh `<<` needs the first doubling, which fails — nothing changes; the retry succeeds -/
+example : let s := run (init 1 false) [Op.ctor 0, Op.addH 0 1, Op.addH 0 2, Op.addH 0 3, Op.addH 0 4, Op.addH 0 5, Op.addH 0 6]
+    (step s (Op.fault (FOp.addF 0 7))).2 = Res.threw
+    ∧ handles (step s (Op.fault (FOp.addF 0 7))).1 0 = [1, 2, 3, 4, 5, 6]
+    ∧ handles (run s [Op.fault (FOp.addF 0 7), Op.addH 0 7]) 0 = [1, 2, 3, 4, 5, 6, 7]
+    ∧ (run s [Op.fault (FOp.addF 0 7), Op.addH 0 7]).trace = [Ev.alloc 6, Ev.alloc 12, Ev.free 6] := by decide
+/-- a merge whose second allocation fails: the target went to the heap (block of 6) and took four handles, then the doubling
+failed: it holds its own two handles again, in the new block; the source still holds its seven -/
+example : let s := run (init 2 false) (demoGrow ++ [Op.ctorH 1 1, Op.addH 1 2])
+    (step s (Op.fault (FOp.mergeF 1 0 1))).2 = Res.threw
+    ∧ handles (step s (Op.fault (FOp.mergeF 1 0 1))).1 1 = [1, 2]
+    ∧ handles (step s (Op.fault (FOp.mergeF 1 0 1))).1 0 = [10, 11, 12, 13, 14, 15, 16]
+    ∧ ((step s (Op.fault (FOp.mergeF 1 0 1))).1.obj 1).map (·.cf) = some 5
+    ∧ resumed (run s ([Op.fault (FOp.mergeF 1 0 1), Op.merge 1 0] ++ endOps 2)) = [1, 2, 10, 11, 12, 13, 14, 15, 16]
+    ∧ (run s ([Op.fault (FOp.mergeF 1 0 1), Op.merge 1 0] ++ endOps 2)).live = [] := by decide
+/-- plain code: a callable readies 7 and 8, clears a suspend point holding 1 2 and throws: all four resumed once, normal mode again -/
+example : let s := run (init 1 false) [Op.ctorH 0 1, Op.addH 0 2, Op.fault (FOp.call [7, 8] (some 0) true)]
+    resumed s = [7, 8, 1, 2] ∧ s.active = false ∧ s.queue = [] ∧ handles s 0 = [] := by decide
+example : let s := run (init 1 true) [Op.ctorH 0 1, Op.clear 0, Op.fault (FOp.createX [7, 8])]
+    resumed s = [] ∧ s.queue = [1, 7, 8] ∧ s.active = true := by decide
+
 end Cocls.SP
